@@ -219,7 +219,8 @@ class Gen:
         x = self.r.below(100)
         if x < 45: return self.query()
         if x < 56:
-            return ("INSERT " + self.ch(["INTO", "IGNORE INTO", "OVERWRITE", "OVERWRITE TABLE", "INTO TABLE", "into", "overwrite table"]) + " " + self.ch(TABLES)
+            return (self.ch(["", "", "", "WITH w AS (SELECT 1) ", "WITH w AS (SELECT a, b FROM t WHERE b > 1), `w 3` AS (SELECT 2 AS a) ", "with w as (" + self.select(1) + ") "])
+                    + "INSERT " + self.ch(["INTO", "IGNORE INTO", "OVERWRITE", "OVERWRITE TABLE", "INTO TABLE", "into", "overwrite table"]) + " " + self.ch(TABLES)
                     + self.ch(["", "", " " + self.partition()]) + self.w(["", " (a, b)", " (`a`, t.b)"], [" (a b)", " ()"]) + " "
                     + self.w(["VALUES (1, 'x'), (2, NULL)", "VALUES (1, 2)", "values (1 + 2, f(3)), (a, b)", self.query(), "VALUES (1, 2) (3, 4)", "VALUES (" + self.expr(1) + ")"], ["VALUES", "(SELECT 1)", "VALUES (1,,2)", "VALUES (1 2)"]))
         if x < 62:
